@@ -332,21 +332,6 @@ pub fn walk_unreached(max: usize) -> Vec<u32> {
         v
     })
 }
-/// forget leaked elements (permitted after a destructor panic): they no longer count as live
-pub fn forgive_leaks(ids: &[u32]) {
-    with(|s| {
-        for &id in ids {
-            if s.st[id as usize] == 1 {
-                s.st[id as usize] = 2;
-                s.live -= 1;
-            }
-        }
-    })
-}
-pub fn forgive_zt_leaks(n: u64) {
-    with(|s| s.zt_dropped += n)
-}
-
 // ---- fault controller -------------------------------------------------------
 
 /// Begin an operation: reset per-op seam counters and arm the given faults.
@@ -385,12 +370,6 @@ pub fn tick(seam: Seam) -> u32 {
         s.seam_count[seam as usize] = k + 1;
         s.total_seam_calls += 1;
         s.ev(EV_SEAM, seam as u32, k);
-        if seam != Seam::Drop && s.callback_fault_fired {
-            s.violate(
-                "C04-callback-after-panic",
-                format!("seam {} called again (call {k}) after an injected panic had already propagated out of a callback", seam.name()),
-            );
-        }
         if let Some(pos) = s.armed.iter().position(|&(sm, kk)| sm == seam && kk == k) {
             if seam == Seam::Drop && std::thread::panicking() {
                 // a second panic while unwinding aborts by language rule; out of scope
